@@ -4,7 +4,7 @@ import json
 TECH = "contract-based deductive verification: contracts as //@ comments on the real functions, VCs generated from go/ssa of the current working tree, every obligation discharged by z3 4.8 / z3 5.1 / cvc5 (raced)"
 claimed = {
  "C01": ("Proved for all inputs, precisions, modes, signs and aliasings: round() returns RoundSpec (the arithmetic definition of rounding, written from the property statement) of its input mantissa; Add/Sub return RoundSpec of the exact sum/difference, Mul of the exact product (via the assumed dec.mul/sqr value contract), Quo of the Euclidean quotient with sticky remainder and enough digits (ghost witnesses, DESIGN.md 10.3); Set/SetPrec/Neg/Abs likewise; under/overflow to +-0/+-Inf; index/nil/frame safety of the whole cone.",
-         "assumed: ucmp.ensures[value] (clause assumed), dec.mul/sqr/div value contracts, assembly kernels (contract of the _g twin); one paper step for Quo (DESIGN.md 10.3); operand size bounds (len <= 10^7 words, exponent gap <= 10^9)"),
+         "assumed: dec.mul/sqr/div value contracts (validated by bounded execution), assembly kernels (contract of the _g twin); one paper step for Quo (DESIGN.md 10.3); operand size bounds (len <= 10^7 words, exponent gap <= 10^9)"),
  "C02": ("Proved: acc component of RoundSpec for Set/SetPrec/setExpAndRound, under/overflow accuracy, Exact on cancellation and special values, setters SetInt64/SetUint64/NewDecimal/SetMantExp range clauses.", "same assumed clauses as C01"),
  "C03": ("Proved for every aliasing of z with x, y, u: the exact product (ghost gMp*10^gqp, tied to Mx*My by ensures[prod]) plus u is rounded once (fmaspec = RoundSpec of the exact sum/difference), the u == 0 shortcut equals Mul, special-value table, zero-sum sign rule, ErrNaN iff invalid, operands unchanged, validity. Domain: requires[prodrange] (product exponent inside the int32 range); outside it FMA is wrong - an open known finding kept visible by a bounded run.", "requires[prodrange], requires[range] size bounds; Add/umul contracts"),
  "C04": ("Proved: IEEE special-value tables of Add/Sub/Mul/Quo/FMA/Set/Neg/Abs/SetInf, `panics ErrNaN iff invalid operation`, receiver valid on the exceptional exit, and unreachability of every other panic site (index, slice, nil, division, explicit panic) in the functions under contract.", "functions not under contract (Sqrt, formatting, parsing, Float conversions, Karatsuba/division internals) are not covered by the no-other-panic half"),
@@ -15,8 +15,8 @@ claimed = {
  "C08": ("Proved: valid(z) (canonical form) is a postcondition of every mutator under contract, on normal and ErrNaN exits, given valid operands.", "round.ensures[shape] assumed; GobDecode, Sqrt, parsers not under contract yet"),
  "C09": ("Proved: precision rule, mode unchanged, operands unchanged (all fields and mantissa words) for every operation under contract, all aliasings.", "operations not under contract: Sqrt, SetInt, SetRat, SetFloat*, SetString/Parse, GobDecode"),
  "C10": ("Corollary: every result-determining postcondition (C01/C02/C03 clauses) is proved with pointers, slice headers, stale buffer contents and the receiver's previous value unconstrained, so results are functions of operand values, precision and mode only.", "same assumed clauses as C01"),
- "C14": ("Proved: SetInt64/SetUint64/NewDecimal/setBits64/setUint64: sign, zero, precision, saturation when the exponent leaves the range, validity, no wrap of the int64 exponent sum. Int64/Uint64/Int/Rat/SetInt/SetRat/IsInt/MinPrec not under contract yet.", "value-rounding clause of setBits64 via round (assumed clause)"),
- "C16": ("Proved: Cmp is the sign of x-y over {-Inf, finite, 0, +Inf} given ucmp's digit-wise contract; ord/Sign/Signbit/IsZero/IsInf consistent; loop safety of ucmp.", "ucmp.ensures[value] assumed (loop invariant for the value not yet proved)"),
+ "C14": ("Proved: Int64/Uint64 return the integer part gT of |x| (gT = floor(M/10^d) stated without division through the ghost remainder of dec.shr, or M*10^k) with the documented saturation at the type bounds, 0/Above for negatives (Uint64), the special values, and accuracy Exact iff MinPrec <= exp where MinPrec is 19L minus the number of trailing zero digits (word-level characterisation tz); IsInt and MinPrec likewise; toUint64 exact or overflow; SetInt64/SetUint64/NewDecimal/setBits64: sign, zero, precision, saturation when the exponent leaves the range, no wrap of the int64 exponent sum, validity. Not machine-checked: the step from `trailing zero digits >= d` to `remainder == 0` (divisibility of M by 10^d). Int/Rat/SetInt/SetRat (math/big) are not under contract.", "one paper step (tz >= d iff remainder 0); math/big based conversions not covered"),
+ "C16": ("Proved: ucmp (digit-wise comparison with zero padding) returns the order of the exact magnitudes (loop invariants on the compared prefixes, lifted to values with V_eq_shift/V_pos/V_zero and explicit product facts); different exponents decide by normalisation; Cmp is the sign of x-y over {-Inf, finite, 0, +Inf}; ord/Sign/Signbit/IsZero/IsInf consistent. Antisymmetry and transitivity follow from `Cmp == sign(x-y)`; they are not separate obligations.", "operand size bounds only"),
  "C17": ("Proved: GobDecode is total on arbitrary bytes (every index/slice/length obligation), returns an error with the receiver's scalars untouched or leaves valid(z) (canonical form: words below the base, normalized, fits the precision, trailing digits clear); a receiver with non-zero precision keeps precision and mode; empty input gives the zero value; GobEncode never panics on a valid Decimal, does not modify it, and writes version, header byte, precision and exponent bytes as specified; lemma gob_header: unpack(pack(mode, acc, form, sign)) is the identity, so the attribute round trip follows from the two contracts. Not covered: the mantissa bytes round trip (dec.bytes/setBytes are proved memory-safe and length-correct only; bigEndianWord assumed).",
          "bigEndianWord assumed; mantissa byte values not specified; SetPrec contract for the rounding into a non-zero-precision receiver"),
  "C18": ("Proved sequentially: write frame of every function under contract is the receiver's fields and its own (or fresh) mantissa array; operands unchanged; results never alias an operand buffer. Race freedom then follows from the Go memory model (meta-argument, not machine-checked).", "sync.Pool exclusivity; Go memory model; functions not under contract"),
